@@ -211,6 +211,42 @@ claim('C15', 'other',
       'Not decided: limits as numeric statements; invariance under transforms follows from C10 plus these formulas and is not re-derived.',
       TRUST, 'DESIGN.md section 3 C15')
 
+claim('C17', 'other',
+      'abstract interpretation of the transform parser on tokenised strings with symbolic numbers (3x3 matrices exact), of both tree '
+      'traversals on stub XML elements with symbolic matrices, of every converter composed with the interpreted path parser; AST rules '
+      '(discarded results, dict/Element protocol, tag registries); regex->DFA inclusion',
+      'Decides: all six transform kinds with their optional operands give the SVG 1.1 section 7.6 matrix (9 forms, blank and comma separated); lists '
+      'compose left to right under blank/comma/newline separators; in Document.flattened_paths and SaxDocument.sax_parse the matrix applied '
+      'to each element of a 3-level model tree is (outermost ancestor ... own transform) in that order, and the transformed path is what is '
+      'returned; rect (plain, rounded, rx only), circle, ellipse, polyline, polygon and line convert to d-strings that the interpreted '
+      'parser turns into exactly the section 9 geometry for all attribute values; converters touch their element only through .get(); no result of a '
+      'pure curve function is discarded; the three readers register the same seven tags with the same converters; every CSS number is in '
+      'the point-list lexer\'s language. Not decided: XML parsing itself, filters, numerics of transform() on arcs.',
+      TRUST + ' XML elements are stubs offering get/iterfind/iter/attrib/tag.', 'DESIGN.md section 3 C17')
+
+claim('C18', 'other',
+      'abstract interpretation of writers and readers against stub library objects (svgwrite Drawing, ElementTree SubElement/iterparse, '
+      'minidom document) + a stated API model for name serialisation; writer x reader qualified-name matrix',
+      'Decides: for each writer (disvg/wsvg, Document.add_path+save, SaxDocument.save) x reader (svg2paths, Document.paths, SaxDocument) '
+      'whether the reader\'s name test matches what the writer serialises (one known finding: Document.save -> svg2paths, F22; F21 was found '
+      'and repaired); elements created by add_path/add_group are in the namespace the Document searches; attribute pass-through in disvg '
+      '(per-path and svg-level), add_path (d overrides, caller dict untouched), svg2paths (all attributes) and SaxDocument (own attribute > '
+      'own style > inherited); order preservation; generate_dom writes the matrix in the permutation the matrix(...) reader inverts. '
+      'Not decided: svgwrite / ElementTree / minidom internals beyond the API model, d-string equality (C01).',
+      TRUST + ' API model rows listed in the evidence assumptions.', 'DESIGN.md section 3 C18')
+
+claim('C20', 'other',
+      'abstract interpretation of smoothed_joint on symbolic unit directions (identities with positive factors, interval evaluation of '
+      'linear offset factors over 0<tightness<2, transitive closure of the path\'s ordering facts), exhaustive label exploration of '
+      'smoothed_path\'s bookkeeping against a specification replay',
+      'Decides: for line-line, line-curve and curve-line joints the elbow meets the trimmed pieces exactly, elbow\'(0) = b v and elbow\'(1) = b w '
+      'with b/a positive on the whole tightness range, outer end points are kept, trimmed lines keep their direction with factor (len - a), '
+      'all elbow control points lie within a resp. 4a/3 of the joint, a is the minimum of maxjointsize/2, len0/20, len1/20 on every label '
+      'path; the curve-curve branch chains its >= 3 pieces end to end; smoothed_path keeps/replaces/inserts exactly the right pieces for every '
+      'pattern of smooth/kink joints on open and closed 3-segment paths (closing joint included) and returns a single-segment path as is. '
+      'Not decided: the metric bound for curve-curve joints (ilength/cropped), tolerance-based kink detection.',
+      TRUST + ' Convex-hull property of Bezier curves.', 'DESIGN.md section 3 C20')
+
 ALL = ['C%02d' % i for i in range(1, 21)]
 for pid in ALL:
     if pid not in CLAIMED and pid not in NOT_APPLICABLE:
